@@ -8,18 +8,19 @@ Text scanning (`sscanf`) and `getaddrinfo` are libc: the model starts from what 
 `a`, `a/m`, `a-b`, `a-b/m` (`Item`).  Core Lean only.
 -/
 import SquidModel.Acl.DomainTree
+import SquidModel.Gen.IpAcl
 
 namespace SquidModel.Acl.Ip
 open SquidModel.Acl
 
 /-! ### src/ip/Address.cc -/
 
-/-- `v6_noaddr`: all 128 bits set -/
-def ALL1 : Nat := 0xffffffffffffffffffffffffffffffff
+/-- `v6_noaddr`: all 128 bits set (value read from the staged source: `Gen.IpAcl`) -/
+def ALL1 : Nat := Gen.IpAcl.v6NoAddr
 /-- `v4_anyaddr` = `::ffff:0.0.0.0` -/
-def V4ANY : Nat := 0xffff00000000
+def V4ANY : Nat := Gen.IpAcl.v4AnyAddr
 /-- `v4_noaddr` = `::ffff:255.255.255.255` -/
-def V4NO : Nat := 0xffffffffffff
+def V4NO : Nat := Gen.IpAcl.v4NoAddr
 
 /-- `Ip::Address::isAnyAddr`: `IN6_IS_ADDR_UNSPECIFIED || == v4_anyaddr` -/
 def isAnyAddr (a : Nat) : Bool := a == 0 || a == V4ANY
@@ -40,6 +41,14 @@ def le (a b : Nat) : Bool := if isAnyAddr a && !isAnyAddr b then true else decid
 def gt (a b : Nat) : Bool := if isNoAddr a && !isNoAddr b then true else decide (matchIPAddr a b > 0)
 /-- `operator >=` -/
 def ge (a b : Nat) : Bool := if isNoAddr a && !isNoAddr b then true else decide (matchIPAddr a b ≥ 0)
+
+/-! The address order the IP ACL comparators use: the relational operators above in the pinned tree; plain byte order
+(`matchIPAddr`) in a tree that carries notes/fixes/C42-address-operator-special-cases.diff (`Gen.IpAcl.plainOrder`, probed by
+running the staged code). -/
+def aLt (a b : Nat) : Bool := if Gen.IpAcl.plainOrder then decide (matchIPAddr a b < 0) else lt a b
+def aLe (a b : Nat) : Bool := if Gen.IpAcl.plainOrder then decide (matchIPAddr a b ≤ 0) else le a b
+def aGt (a b : Nat) : Bool := if Gen.IpAcl.plainOrder then decide (matchIPAddr a b > 0) else gt a b
+def aGe (a b : Nat) : Bool := if Gen.IpAcl.plainOrder then decide (matchIPAddr a b ≥ 0) else ge a b
 
 /-- `Ip::Address::applyMask(const Address &)`: word-wise `p1[i] &= p2[i]`; the second component is `changes != 0`
 (the count of changed 32-bit words is only ever tested against zero) -/
@@ -90,17 +99,17 @@ def Val.last (v : Val) : Nat :=
 
 /-- `Acl::SplayInserter<acl_ip_data*>::Compare(a, b)` -/
 def compare (a b : Val) : Int :=
-  if lt a.last b.first then -1          -- the entire range a is to the left of range b
-  else if gt a.first b.last then 1      -- the entire range a is to the right of range b
+  if aLt a.last b.first then -1          -- the entire range a is to the left of range b
+  else if aGt a.first b.last then 1      -- the entire range a is to the right of range b
   else 0
 
 /-- `Acl::SplayInserter<acl_ip_data*>::IsSubset(a, b)` -/
-def isSubset (a b : Val) : Bool := le b.first a.first && le a.last b.last
+def isSubset (a b : Val) : Bool := aLe b.first a.first && aLe a.last b.last
 
 /-- `std::min(x, y)` = `(y < x) ? y : x` with `Ip::Address::operator <` -/
-def stdMin (x y : Nat) : Nat := if lt y x then y else x
+def stdMin (x y : Nat) : Nat := if aLt y x then y else x
 /-- `std::max(x, y)` = `(x < y) ? y : x` -/
-def stdMax (x y : Nat) : Nat := if lt x y then y else x
+def stdMax (x y : Nat) : Nat := if aLt x y then y else x
 
 /-- `Acl::SplayInserter<acl_ip_data*>::MakeCombinedValue(a, b)` -/
 def makeCombined (a b : Val) : Val :=
@@ -110,7 +119,7 @@ def makeCombined (a b : Val) : Val :=
 def networkCompare (p : Nat) (q : Val) : Int :=
   let A := (applyMask p q.mask).1
   if isAnyAddr q.addr2 then matchIPAddr A q.addr1                    -- single address check
-  else if ge A q.addr1 && le A q.addr2 then 0                         -- valid. inside range.
+  else if aGe A q.addr1 && aLe A q.addr2 then 0                       -- valid. inside range.
   else matchIPAddr A q.addr1                                          -- outside of range, 'less than'
 
 /-! ### parsing -/
@@ -158,9 +167,17 @@ def decodeMask (spec : MaskSpec) (fam : Fam) : Option (Nat × Bool) :=
   match spec with
   | .none => some (ALL1, false)                                        -- `!asc || !*asc`
   | .cidr n =>
-    if n ≤ 128 then (applyCidr ALL1 n fam).map (fun m => (m, false))   -- `sscanf(asc, "%d%c") == 1 && a1 <= 128 && a1 >= 0`
+    if n ≤ 128 then                                                    -- `sscanf(asc, "%d%c") == 1 && a1 <= 128 && a1 >= 0`
+      if n = 0 && Gen.IpAcl.slashZeroIsEverything then
+        -- only in a tree with notes/fixes/C42-v6-slash-zero.diff: `/0` leaves no network bits
+        if fam == Fam.v6 then some (0, false)                          -- `mask.setAnyAddr()`
+        else (applyCidr ALL1 96 Fam.v6).map (fun m => (m, false))      -- `mask.applyMask(96, AF_INET6)`
+      else (applyCidr ALL1 n fam).map (fun m => (m, false))
     else (decodeDotted n).map (fun m => (m, true))                     -- getaddrinfo reads a lone number as an IPv4 address
   | .dotted m => (decodeDotted m).map (fun m' => (m', true))
+
+/-- the test of notes/fixes/C42-self-incomparable-value-uaf.diff: `!q->addr2.isAnyAddr() && q->addr2.matchIPAddr(q->addr1) < 0` -/
+def reversed (addr1 addr2 : Nat) : Bool := !isAnyAddr addr2 && decide (matchIPAddr addr2 addr1 < 0)
 
 /-- `acl_ip_data::FactoryParse(t)` from "Decode addr1" on, for one numeric token; `none` = `self_destruct()` -/
 def factoryParse (it : Item) : Option (Val × List Event) :=
@@ -173,7 +190,8 @@ def factoryParse (it : Item) : Option (Val × List Event) :=
   | some (mask, dep) =>
     let r1 := applyMask addr1 mask
     let r2 := applyMask addr2 mask
-    some (⟨r1.1, r2.1, mask⟩,
+    if Gen.IpAcl.rejectsReversedRange && reversed r1.1 r2.1 then none   -- only in a tree with the candidate fix
+    else some (⟨r1.1, r2.1, mask⟩,
           (if dep then [Event.deprecated] else []) ++ (if r1.2 || r2.2 then [Event.maskedAway] else []))
 
 /-- the "old broken strings equivalent to 'all'" of `ACLIP::parseGlobal`, recognised on the canonical text of the token:
